@@ -9,11 +9,7 @@ open DAVerif DAVerif.Doc
 
 /-- SQL `ROUND(x·10ᵏ)/10ᵏ` (half away from zero) is the documented rounding wherever that is determined (no tie) -/
 theorem sqlite_around (i : Bool) (args v) (h : docScalar "around" args = some v) : ThetaSqlX.scalar i "around" args = v := by
-  have hd : docScalar "around" args = num2 (fun x k =>
-      if k.den = 1 ∧ 0 ≤ k.num then
-        (nearest? (x * ipow 10 k.num.toNat)).map (fun r => .num ((r : Rat) / ipow 10 k.num.toNat))
-      else none) args := rfl
-  rw [hd] at h
+  rw [docAround_eq] at h
   obtain ⟨x, k, rfl, hf⟩ := num2_some h
   show ThetaSql.scalar "around" [.v (.num x), .v (.num k)] = v
   rw [sql_around_closed, ratPow_eq_ipow]
@@ -28,7 +24,25 @@ theorem sqlite_around (i : Bool) (args v) (h : docScalar "around" args = some v)
       simp at hf
       rw [halfAway_eq_nearest x (ipow 10 k.num.toNat) (ipow_pos _) R hn]
       exact hf
-  · rw [if_neg hc] at hf; simp at hf
+  · have hc' : ¬ ((k.den == 1 && decide (k.num ≥ 0)) = true) := by
+      intro hh; apply hc; simpa using hh
+    rw [if_neg hc', sql_aroundNeg_closed, ratPow_eq_ipow]
+    rw [if_neg hc] at hf
+    by_cases hd : k.den = 1
+    · have hd' : (k.den == 1) = true := by simp [hd]
+      rw [if_pos hd']
+      rw [if_pos hd] at hf
+      have hp : (0 : Rat) < 1 / ipow 10 (-k.num).toNat := by
+        have := ipow_pos (-k.num).toNat
+        positivity
+      cases hn : nearest? (x * (1 / ipow 10 (-k.num).toNat)) with
+      | none => rw [hn] at hf; simp at hf
+      | some R =>
+        rw [hn] at hf
+        simp at hf
+        rw [halfAway_eq_nearest x (1 / ipow 10 (-k.num).toNat) hp R hn, ← hf]
+        simp
+    · rw [if_neg hd] at hf; simp at hf
 
 theorem sqlite_round (i : Bool) (args v) (h : docScalar "round" args = some v) : ThetaSqlX.scalar i "round" args = v := by
   have hd : docScalar "round" args = num1 (fun x => (nearest? x).map (fun r => .num (r : Rat))) args := rfl
